@@ -182,7 +182,12 @@ def coq_eval_shards(prefix: str, header: str, shards, jobs=8, timeout=1200):
 
     with ThreadPoolExecutor(max_workers=jobs) as pool:
         futs = [pool.submit(coq_eval, f"{prefix}_{i}", header, body, timeout) for i, body in enumerate(shards)]
-        return [f.result() for f in futs]
+        results = [f.result() for f in futs]
+    # a shard that died without a Coq error message (killed for memory or time while the machine was busy) is run again, alone
+    for i, (ok, text) in enumerate(results):
+        if not ok and "Error" not in text:
+            results[i] = coq_eval(f"{prefix}_{i}_retry", header, shards[i], timeout * 2)
+    return results
 
 
 def parse_triples(text: str):
